@@ -331,7 +331,11 @@ def segment(text, nfolds=5, njobs=1,
     folded_texts, fold_index = folding.fold(
         unicode_text, nfolds, fold_boundaries=fold_boundaries)
 
-    segmented_texts = joblib.Parallel(n_jobs=njobs, verbose=0)(
+    # each job waits for an external process: run them in threads (as
+    # ag does), so that a failing fold does not kill the workers of the
+    # other ones before they have removed their temporary file
+    segmented_texts = joblib.Parallel(
+        n_jobs=njobs, backend="threading", verbose=0)(
         joblib.delayed(_dpseg)(
             fold, args,
             log_level=log.getEffectiveLevel(),
